@@ -76,74 +76,133 @@ let pres c : eres =
   | "D" -> EDrop | "X" -> EErr | "R" -> ERow (pmap c)
   | t -> failwith ("bad result " ^ t)
 
+(* "q.name" | "name" *)
+let pfield (t : string) : onfield =
+  match String.index_opt t '.' with
+  | Some i -> { f_qual = Some (bytes_of_ascii (String.sub t 0 i));
+                f_name = bytes_of_ascii (String.sub t (i + 1) (String.length t - i - 1)) }
+  | None -> { f_qual = None; f_name = bytes_of_ascii t }
+
+(* <src alias|-> <nj> { table I|L alias|- np { left right } } S <n> { name path } <where> *)
+let pconfig (cfgt : string list) =
+  let c = { t = cfgt } in
+  let sa = (match next c with "-" -> None | a -> Some (bytes_of_ascii a)) in
+  let nj = int c in
+  let joins = times nj (fun () ->
+    let table = bytes_of_ascii (next c) in
+    let left = (next c = "L") in
+    let alias = (match next c with "-" -> None | a -> Some (bytes_of_ascii a)) in
+    let np = int c in
+    let pairs = times np (fun () -> let l = pfield (next c) in let r = pfield (next c) in (l, r)) in
+    { jt_table = table; jt_left = left; jt_alias = alias; jt_on = pairs }) in
+  let q = { q_src_alias = sa; q_joins = joins } in
+  if next c <> "S" then failwith "expected S";
+  let ns = int c in
+  let sel = times ns (fun () -> let name = bytes_of_ascii (next c) in let p = ppath c in (name, p)) in
+  let wc = (match next c with
+    | "W0" -> WTrue
+    | "WE" -> let p = ppath c in WStrEq (p, sbytes (next c))
+    | "WN" -> WIsNull (ppath c)
+    | "WNN" -> WNotNull (ppath c)
+    | t -> failwith ("bad where " ^ t)) in
+  (q, sel, wc)
+
+(* <n> { name <A | nk keys...> <nrows> rows... }    A = RegisterTable without key fields (derived from ON) *)
+let pregs (regt : string list) : reg_call list =
+  let c = { t = regt } in
+  let nt = int c in
+  times nt (fun () ->
+    let name = bytes_of_ascii (next c) in
+    let keys = (match next c with
+      | "A" -> None
+      | nk -> Some (times (int_of_string nk) (fun () -> bytes_of_ascii (next c)))) in
+    let nr = int c in
+    let rows = times nr (fun () -> prow c) in
+    ((name, keys), rows))
+
+let pops (opt : string list) : (op * out) list =
+  let c = { t = opt } in
+  let rec go () : (op * out) list =
+    match peek c with
+    | None -> []
+    | Some _ ->
+      let x = (match next c with
+        | "E" -> let r = prow c in let e = pres c in (OEmit r, OutE e)
+        | "Y" -> let r = prow c in let e = pres c in (OEmitSync r, OutE e)
+        | "U" -> let t = bytes_of_ascii (next c) in let r = prow c in let ok = (next c = "1") in (OUpsert (t, r), OutU ok)
+        | "D" -> let t = bytes_of_ascii (next c) in
+                 let k = (match next c with
+                   | "S" -> DSingle (kv_of_tok (next c))
+                   | "T" -> DTuple (tuple c)
+                   | _ -> failwith "bad delete key") in
+                 (ODelete (t, k), OutD)
+        | t -> failwith ("bad op " ^ t)) in
+      x :: go () in
+  go ()
+
+(* one history judged by the abstract specification (chk_C16_sql: the MEANING of the JOIN clause), then
+   compared with the code-level model. A chk verdict says whether some ON equality is written
+   table = stream ("on_swapped": the recorded finding) and whether the code-level model still agrees with
+   the implementation ("model differs" = a behaviour change, never a recorded finding). *)
+let judge (q, sel, wc) (regs : reg_call list) (ol : (op * out) list) : string option =
+  let ops = List.map fst ol and impl = List.map snd ol in
+  let m = JoinS.api_run sel wc ops (model_run_sql q regs ops) in
+  let mdiff = JoinS.chk_outs O m impl in
+  match JoinS.chk_C16_sql q sel wc regs ops impl with
+  | Some (i, cl) ->
+      let exp = List.nth (JoinS.api_run sel wc ops (spec_run_sql q regs ops)) (int_of_nat i) in
+      Some (Printf.sprintf "chk %s op=%d expected=%s impl=%s%s%s" (string_of_clause cl) (int_of_nat i)
+              (show_out exp) (show_out (List.nth impl (int_of_nat i)))
+              (if well_oriented q then "" else " on_swapped")
+              (if mdiff = None then "" else " model differs"))
+  | None ->
+      (match mdiff with
+       | Some (i, _) -> Some (Printf.sprintf "diff model op=%d model=%s impl=%s" (int_of_nat i)
+                                (show_out (List.nth m (int_of_nat i))) (show_out (List.nth impl (int_of_nat i))))
+       | None -> None)
+
 let handle_J (toks : string list) : string =
   match Win.split_hash toks with
   | [cfgt; regt; opt] ->
-      let c = { t = cfgt } in
-      let sa = (match next c with "-" -> None | a -> Some (bytes_of_ascii a)) in
-      let nj = int c in
-      let joins = times nj (fun () ->
-        let table = bytes_of_ascii (next c) in
-        let left = (next c = "L") in
-        let alias = bytes_of_ascii (next c) in
-        let np = int c in
-        let pairs = times np (fun () -> let s = bytes_of_ascii (next c) in let t = bytes_of_ascii (next c) in (s, t)) in
-        { j_table = table; j_left = left; j_alias = alias; j_pairs = pairs }) in
-      let cfg = { c_src_alias = sa; c_joins = joins } in
-      if next c <> "S" then failwith "expected S";
-      let ns = int c in
-      let sel = times ns (fun () -> let name = bytes_of_ascii (next c) in let p = ppath c in (name, p)) in
-      let wc = (match next c with
-        | "W0" -> WTrue
-        | "WE" -> let p = ppath c in WStrEq (p, sbytes (next c))
-        | "WN" -> WIsNull (ppath c)
-        | "WNN" -> WNotNull (ppath c)
-        | t -> failwith ("bad where " ^ t)) in
-      let c = { t = regt } in
-      let nt = int c in
-      let regs = times nt (fun () ->
-        let name = bytes_of_ascii (next c) in
-        let nk = int c in
-        let keys = times nk (fun () -> bytes_of_ascii (next c)) in
-        let nr = int c in
-        let rows = times nr (fun () -> prow c) in
-        ((name, keys), rows)) in
-      let c = { t = opt } in
-      let rec pops () : (op * out) list =
-        match peek c with
-        | None -> []
-        | Some _ ->
-          let x = (match next c with
-            | "E" -> let r = prow c in let e = pres c in (OEmit r, OutE e)
-            | "Y" -> let r = prow c in let e = pres c in (OEmitSync r, OutE e)
-            | "U" -> let t = bytes_of_ascii (next c) in let r = prow c in let ok = (next c = "1") in (OUpsert (t, r), OutU ok)
-            | "D" -> let t = bytes_of_ascii (next c) in
-                     let k = (match next c with
-                       | "S" -> DSingle (kv_of_tok (next c))
-                       | "T" -> DTuple (tuple c)
-                       | _ -> failwith "bad delete key") in
-                     (ODelete (t, k), OutD)
-            | t -> failwith ("bad op " ^ t)) in
-          x :: pops () in
-      let ol = pops () in
-      let ops = List.map fst ol and impl = List.map snd ol in
-      (match JoinS.chk_C16 cfg sel wc regs ops impl with
-       | Some (i, cl) ->
-           let exp = List.nth (JoinS.api_run sel wc ops (spec_run cfg regs ops)) (int_of_nat i) in
-           Printf.sprintf "chk %s op=%d expected=%s impl=%s" (string_of_clause cl) (int_of_nat i)
-             (show_out exp) (show_out (List.nth impl (int_of_nat i)))
+      let (q, sel, wc) = pconfig cfgt in
+      let regs = pregs regt in
+      let ol = pops opt in
+      (match judge (q, sel, wc) regs ol with
+       | Some v -> v
        | None ->
-           let m = JoinS.api_run sel wc ops (model_run cfg regs ops) in
-           (match JoinS.chk_outs O m impl with
-            | Some (i, _) -> Printf.sprintf "diff model op=%d model=%s impl=%s" (int_of_nat i)
-                               (show_out (List.nth m (int_of_nat i))) (show_out (List.nth impl (int_of_nat i)))
-            | None ->
-                (* non-trivial: some row was enriched from a table row written by an Upsert of the history,
-                   or some row saw no match *)
-                let kept = List.exists (function OutE (ERow _) -> true | _ -> false) impl
-                and dropped_or_null = List.exists (function OutE EDrop -> true | _ -> false) impl
-                and ups = List.exists (function OUpsert _ -> true | _ -> false) ops in
-                if kept && ups && (dropped_or_null || List.exists (fun j -> j.j_left) joins) then "ok nt" else "ok"))
+           (* non-trivial: some row was enriched from a table row written by an Upsert of the history,
+              or some row saw no match *)
+           let ops = List.map fst ol and impl = List.map snd ol in
+           let kept = List.exists (function OutE (ERow _) -> true | _ -> false) impl
+           and dropped_or_null = List.exists (function OutE EDrop -> true | _ -> false) impl
+           and ups = List.exists (function OUpsert _ -> true | _ -> false) ops in
+           if kept && ups && (dropped_or_null || List.exists (fun j -> j.jt_left) q.q_joins) then "ok nt" else "ok")
+  | _ -> "bad line"
+
+(* concurrent writers: <config> # <registrations> # <goroutine 1: its operations and what it observed> # ... #
+   <probes after every goroutine returned>. The goroutines write key-disjoint parts of the table, so
+   (C16_concurrent_writers, for every interleaving) each goroutine's own observations are those of its own
+   sequence run alone, and the final probes are those after all writes in program order. *)
+let handle_K (toks : string list) : string =
+  match Win.split_hash toks with
+  | cfgt :: regt :: rest when List.length rest >= 2 ->
+      let cfg = pconfig cfgt in
+      let regs = pregs regt in
+      let secs = List.map pops rest in
+      let n = List.length secs in
+      let gs = List.filteri (fun i _ -> i < n - 1) secs and probes = List.nth secs (n - 1) in
+      let rec each i = function
+        | [] -> None
+        | g :: r -> (match judge cfg regs g with
+                     | Some v -> Some (Printf.sprintf "%s goroutine=%d" v i)
+                     | None -> each (i + 1) r) in
+      (match each 0 gs with
+       | Some v -> v
+       | None ->
+           let writes = List.filter (fun (o, _) -> match o with OUpsert _ | ODelete _ -> true | _ -> false) (List.concat gs) in
+           (match judge cfg regs (writes @ probes) with
+            | Some v -> Printf.sprintf "%s after_all_writers_returned writes=%d" v (List.length writes)
+            | None -> if List.length writes > 0 then "ok nt" else "ok"))
   | _ -> "bad line"
 
 (* the extracted encodeKey, memoised on the token text of its argument (a pure function; the pool x pool
@@ -182,6 +241,11 @@ let handle (toks : string list) : string =
                 else if a <> b then "ok nt" else "ok")
        | _ -> "bad line")
   | "J" :: rest -> handle_J rest
+  | "K" :: rest -> handle_K rest
+  | ["X"; what; sql; err] ->
+      (* every generated query and registration is valid: a rejection is an error where none is due *)
+      Printf.sprintf "chk %s %s rejected: %s <- %s" (string_of_clause JoinS.ClError) what
+        (String.escaped (ascii_of_bytes (sbytes err))) (String.escaped (ascii_of_bytes (sbytes sql)))
   | "C" :: rest ->
       (match Win.split_hash rest with
        | [[n; _wd; fin_exp]; obs; [fin]] ->
